@@ -530,6 +530,130 @@ pop
 int 1
 return
 """)
+HAND["h016"] = ("three methods pinning different GroupIndex / GroupSize / OnCompletion values, all calling one shared subroutine that reads gtxn fields and calls a nested helper", """
+#pragma version 7
+txna ApplicationArgs 0
+byte "a"
+==
+bnz method_a
+txna ApplicationArgs 0
+byte "b"
+==
+bnz method_b
+txna ApplicationArgs 0
+byte "c"
+==
+bnz method_c
+err
+method_a:
+txn GroupIndex
+int 0
+==
+assert
+global GroupSize
+int 2
+==
+assert
+callsub shared
+int 1
+return
+method_b:
+txn GroupIndex
+int 1
+==
+assert
+txn OnCompletion
+int NoOp
+==
+assert
+callsub shared
+int 1
+return
+method_c:
+txn GroupIndex
+int 2
+>=
+assert
+txn Fee
+int 1000
+<=
+assert
+callsub shared
+callsub helper
+int 1
+return
+shared:
+gtxn 0 RekeyTo
+global ZeroAddress
+==
+assert
+gtxn 1 CloseRemainderTo
+global ZeroAddress
+==
+assert
+callsub helper
+retsub
+helper:
+txn RekeyTo
+global ZeroAddress
+==
+assert
+gtxn 1 TypeEnum
+int pay
+==
+assert
+retsub
+""")
+HAND["h017"] = ("as h016 for a logic-sig: branches on TypeEnum with different index pins share a subroutine checking fee and close-to through gtxn of the own index", """
+#pragma version 6
+txn TypeEnum
+int pay
+==
+bnz pay_branch
+txn TypeEnum
+int axfer
+==
+bnz axfer_branch
+err
+pay_branch:
+txn GroupIndex
+int 0
+==
+assert
+callsub common_checks
+int 1
+return
+axfer_branch:
+txn GroupIndex
+int 1
+==
+assert
+callsub common_checks
+txn AssetCloseTo
+global ZeroAddress
+==
+assert
+int 1
+return
+common_checks:
+gtxn 0 Fee
+int 2000
+<=
+assert
+gtxn 1 Fee
+int 3000
+<=
+assert
+gtxn 0 CloseRemainderTo
+global ZeroAddress
+==
+assert
+txn RekeyTo
+global ZeroAddress
+==
+assert
+retsub
+""")
 
 
 # ---------------------------------------------------------------------------- generator
